@@ -3,6 +3,7 @@ package main
 // Calls: contracts, inlining, builtins, standard-library models, opaque havoc.
 
 import (
+	"os"
 	"sort"
 	"fmt"
 	"go/constant"
@@ -367,10 +368,18 @@ func (fr *Frame) useContract(fn *ssa.Function, ct *Contract, args []Val, pos tok
 	c.inUse[fn]++
 	defer func() { c.inUse[fn]-- }()
 	mk := &markerInfo{mode: "use", target: fn, contract: ct, callerFrame: fr, callPos: pos}
-	// ghost parameters of the callee contract are existential at call sites: use fresh values
+	nAssumeBefore, reachBefore := len(c.assumes), fr.abs()
+	// A callee contract holds for every value of its ghost parameters, so any instantiation is sound at a call site
+	// (the callee's requires over the ghost becomes an obligation like any other). A ghost of the same name and type in
+	// the unit under proof is used (a probe point is handed down the call chain); otherwise a fresh value.
 	full := append([]Val{}, args...)
 	for i := len(args); i < len(gen.Params); i++ {
-		full = append(full, Val{T: FreshVar("ghost_"+gen.Params[i].Name(), sortOf(gen.Params[i].Type()))})
+		gp := gen.Params[i]
+		if v, ok := c.ghosts[gp.Name()]; ok && i >= len(fn.Params) && v.T != nil && v.T.S.String() == sortOf(gp.Type()).String() && isGhostOf(ct, gp.Name()) && c.contract != nil && isGhostOf(c.contract, gp.Name()) {
+			full = append(full, v)
+			continue
+		}
+		full = append(full, Val{T: FreshVar("ghost_"+gp.Name(), sortOf(gp.Type()))})
 	}
 	callee := shortName(fn)
 	st := fr.cur
@@ -390,6 +399,18 @@ func (fr *Frame) useContract(fn *ssa.Function, ct *Contract, args []Val, pos tok
 	_, post, _ := c.runFuncSpec(gen, full, st, fr.abs(), fr, mk, sub)
 	fr.cur = post
 	fr.recordStreamRead(fn, ct, args, mk, preState)
+	if !fr.spec && !fr.inQuant && c.siteCanaries < 40 && (c.contract == nil || c.contract.Flags["nocanary"] == "") {
+		// thorough tier: a call site that is reachable before the call must still be reachable after it under everything
+		// assumed from the callee's contract (postconditions that contradict what is known would make the rest of the
+		// path vacuously provable). Checked as a pair: "before" satisfiable and "after" unsatisfiable = VACUOUS.
+		c.siteCanaries++
+		c.nameCount["site-canary"]++
+		n := c.nameCount["site-canary"]
+		c.obligs = append(c.obligs, &Oblig{Name: fmt.Sprintf("%s#canary-before(%s)#%d", c.unitName, callee, n), Kind: "canary-before", Func: c.unitName,
+			Goal: Not(reachBefore), NAssume: nAssumeBefore, Thorough: true})
+		c.obligs = append(c.obligs, &Oblig{Name: fmt.Sprintf("%s#canary-after(%s)#%d", c.unitName, callee, n), Kind: "canary-after", Func: c.unitName,
+			Goal: Not(fr.abs()), NAssume: len(c.assumes), Thorough: true})
+	}
 	return tupleOrSingle(mk.results, resType)
 }
 
@@ -428,6 +449,7 @@ func (fr *Frame) markerCall(fn *ssa.Function, args []Val, pos token.Pos, resType
 	switch mk.mode {
 	case "verify":
 		res, st, ret := c.runFunc(fn, args, nil, fr.cur, fr.abs(), fr, frameOpts{real: true, contract: mk.contract})
+		mk.retReach = ret
 		fr.cur = st
 		fr.curReach = And(fr.curReach, ret)
 		fr.baseReach = And(fr.baseReach, ret)
@@ -437,6 +459,17 @@ func (fr *Frame) markerCall(fn *ssa.Function, args []Val, pos token.Pos, resType
 		}
 		return tupleOrSingle(res, resType)
 	case "use":
+		// a callee that promises freshly allocated objects (vcFresh in its postconditions) has allocated: pointers read
+		// after the call are nil or alive in a LARGER set than before the call. (Without this, the "alive before the
+		// call" assumption made when such a pointer is loaded contradicts its freshness and everything after the call
+		// becomes vacuously provable.)
+		if contractMentions(mk.contract, "vcFresh") && os.Getenv("VC_NOALIVEFIX") == "" {
+			oldAlive := fr.cur.get("alive", SArray(SRef, SBool))
+			newAlive := FreshVar("alive_after_"+sanitize(fn.Name()), SArray(SRef, SBool))
+			qa := BoundVar("r", SRef)
+			c.assume(Forall([]*Term{qa}, Implies(Select(oldAlive, qa), Select(newAlive, qa))))
+			fr.cur.set("alive", newAlive)
+		}
 		// havoc what the contract allows to change
 		fr.applyModifies(mk, args)
 		// ghost event flags can only be raised by the callee
@@ -1069,7 +1102,7 @@ func (fr *Frame) recSpecCall(fn *ssa.Function, ct *Contract, args []Val, pos tok
 			defer func() { readTrack2 := readTrack; readTrack = savedTrack; c.recTrial[fn] = false
 				var keys []string
 				for k := range readTrack2 {
-					if strings.HasPrefix(k, "cell:") || strings.HasPrefix(k, "ghost:") {
+					if strings.HasPrefix(k, "cell:") || strings.HasPrefix(k, "ghost:") || k == "alive" {
 						continue
 					}
 					keys = append(keys, k)
@@ -1111,4 +1144,22 @@ func (fr *Frame) recSpecCall(fn *ssa.Function, ct *Contract, args []Val, pos tok
 type footKey struct {
 	key  string
 	sort *Sort
+}
+
+func isGhostOf(ct *Contract, name string) bool {
+	for _, g := range ct.Ghosts {
+		if g.Name == name {
+			return true
+		}
+	}
+	return false
+}
+
+func contractMentions(ct *Contract, s string) bool {
+	for _, e := range ct.Ensures {
+		if strings.Contains(e.Expr, s) {
+			return true
+		}
+	}
+	return false
 }
